@@ -43,8 +43,10 @@ class VariableElimination(Inference):
         dict: Modified working factors.
         """
 
+        # Each working factor is tagged with its own identity: DiscreteFactor compares and
+        # hashes by value, and two distinct factors with equal tables must both be kept.
         working_factors = {
-            node: {(factor, None) for factor in self.factors[node]}
+            node: {(factor, id(factor)) for factor in self.factors[node]}
             for node in self.factors
         }
 
@@ -57,7 +59,7 @@ class VariableElimination(Inference):
                     )
                     for var in factor_reduced.scope():
                         working_factors[var].remove((factor, origin))
-                        working_factors[var].add((factor_reduced, evidence_var))
+                        working_factors[var].add((factor_reduced, id(factor_reduced)))
                 del working_factors[evidence_var]
         return working_factors
 
